@@ -942,6 +942,10 @@ def fresh_getter(name, etype):
         fr = eng.fresh_fun(name + "_re", z3.IntSort(), z3.RealSort())
         fi = eng.fresh_fun(name + "_im", z3.IntSort(), z3.RealSort())
         return lambda i: SC(fr(i), fi(i))
+    if isinstance(etype, tuple) and etype[0] == "obj":
+        # elements are read-only stub objects generated from the index: etype = ("obj", factory(name, index term))
+        fac = etype[1]
+        return lambda i: fac(name, i)
     raise Undecided(f"element type {etype}")
 
 
